@@ -63,10 +63,11 @@ func c17Compile(log *logrus.Logger, which string, in string) string {
 			if err != nil {
 				return c17CompileErr(err)
 			}
+			n := len(b.rules) // BuildUserspace releases b.rules
 			if _, err = b.BuildUserspace(); err != nil {
 				return c17CompileErr(err)
 			}
-			return fmt.Sprintf("ok sets=%d", len(b.rules))
+			return fmt.Sprintf("ok sets=%d", n)
 		case "q":
 			b, err := dns.NewRequestMatcherBuilder(log, rules, c17Name2Id, "asis")
 			if err != nil {
